@@ -52,9 +52,10 @@ PROPS = {
    'bounds': ADJ_BOUNDS, 'outside': ADJ_OUT + '; positive semi-definiteness is implied by QNQ=Q with N psd and not queried separately', 'assumptions': ADJ_ASSUME},
  'C04': {
    'e1': [{'harness': 'hist', 'entry_points': ['AdjEnvelope/AdjCholDec/AdjGSO/AdjSVD: unknowns, residuals, sum_of_squares, defect, q_xx, q_bb, q0_xx, lindep, min_x(), min_x(n,idx), reset',
-                                                'Adj: x, r, rtr, defect, q_xx, q_bb, set_algorithm'], 'budget_s': {'quick': 400, 'thorough': 3000}}],
+                                                'Adj: x, r, rtr, defect, q_xx, q_bb, set_algorithm'], 'budget_s': {'quick': 400, 'thorough': 3000}},
+          {'harness': 'net', 'entry_points': ['LocalNetwork: solve, residuals, trans_VWV, degrees_of_freedom, m_0, qxx, qbb, stdev_obs, wcoef_res, project_equations(A,b,w), null_space, update_points/observations/residuals/adjustment, set_algorithm']}],
    'e2': [K_MTF],
-   'must_reach': ['hist', 'hist-adj'],
+   'must_reach': ['hist', 'hist-adj', 'net-c04'],
    'technique': 'symbolic execution of every bounded API call sequence on the real solver objects; last answer equals a fresh object\'s answer as a solver-checked identity in the symbolic right-hand side',
    'bounds': 'skeletons lev4-datum, lev5-free, two-components, dep-cols (+vec2d-free, band-6x5, zero-col thorough) and one svd-family matrix; all call sequences of length <= 3 (quick) / <= 4 (thorough): '
              'first call from the full operation table (17-19 operations incl. all index pairs listed in harness/h_hist.cpp), later calls from the reduced table (11-13 operations); two regularisation subsets + all; right-hand side symbolic',
